@@ -17,7 +17,7 @@ func init() {
 	stats.Rule("C05", "rapid state machine as C04 on collapsing-lowest/highest stores with N in {1..2048} (small N over-weighted) and index spread 0.5N..20N; merge arguments of every kind and, for same-kind arguments, an independent bin limit (incl. wide argument into an empty/cleared receiver); after every step the observation must equal fold(M,N) of the exact unfolded content M, bins <= N, span <= N, total == total(M), allocated length <= N (hook); plus sketch-level cases on LogCollapsing{Lowest,Highest}DenseDDSketch checking alpha-accuracy of every quantile whose order statistics fall in retained bins. Non-trivial: at least one fold happened and at least one operation after it; distinct by hash of the operation log.")
 }
 
-var storeOpKinds = []string{"simple", "simple", "simple", "simple", "simple", "simple", "merge", "merge", "decmerge", "protomerge", "copy", "clear", "reweight", "reweight", "encdec", "encdouble", "proto", "protodouble"}
+var storeOpKinds = []string{"simple", "simple", "simple", "simple", "simple", "simple", "widen", "merge", "merge", "decmerge", "protomerge", "copy", "clear", "reweight", "reweight", "encdec", "encdouble", "proto", "protodouble"}
 
 // storeMachine runs one generated history on kind and checks the invariant after every step.
 func storeMachine(t *rapid.T, prop string, kind gen.StoreKind) {
@@ -53,6 +53,20 @@ func storeMachine(t *rapid.T, prop string, kind gen.StoreKind) {
 	cl.logf("%s kind=%s base=%d span=%d", prop, kind, base, span)
 	cl.label("kind:" + kind.Name)
 	steps := 0
+	if rapid.IntRange(0, 3).Draw(t, "startwidening") == 0 {
+		// the history starts on an empty store with a progressively widening distribution
+		gg := *g
+		gg.kinds = []string{"widen"}
+		op := gg.drawOp(t, u)
+		cl.logf("%s", op)
+		if msg := u.apply(op); msg != "" {
+			t.Fatalf("%s %s after %s: %s", prop, kind, op, msg)
+		}
+		if msg := u.invariant(); msg != "" {
+			t.Fatalf("%s %s: after a widening start %s the observation differs from the model %s: %s", prop, kind, op, u.exp(), msg)
+		}
+		cl.label("start:widening")
+	}
 	t.Repeat(map[string]func(*rapid.T){
 		"mutate": func(t *rapid.T) {
 			op := g.drawOp(t, u)
